@@ -26,6 +26,12 @@ def jobs(tier):
                 desc="same obligation with start,count,shape,numrecs FULL 64-bit symbolic; stride of the last dimension = %s, "
                      "of the other dimensions = 1; %d-D" % (c, nd),
                 bounds="ndims=%d; start,count,shape,numrecs full 64-bit; last stride %s" % (nd, c), **common))
+    # C15.c: a zero-length request (some count == 0) changes neither data bytes nor the record count (shared with C05.b)
+    from props import C05 as _c05
+    for j in _c05.jobs(tier):
+        if "put_var.nd2.coll.vara.np1" in j.oid:
+            j.oid = j.oid.replace("C05.b.", "C15.c.zero_length.")
+            out.append(j)
     return out
 
 
